@@ -37,6 +37,49 @@ ORDER_KEEPING = {"list", "tuple", "iter", "enumerate"}
 PARTIAL = {"reversed", "sorted", "set", "frozenset"}
 
 
+# the object itself consumed through its container protocol (the executor enters ``key in self`` / ``self[key]`` by
+# itself): which special method of the class answers
+SELF_CONSUMERS = {"len": "__len__", **{nm: "__iter__" for nm in ("comprehension", "__iter__", "list", "set", "tuple", "frozenset", "sorted", "iter", "sum", "any", "all", "min", "max", "enumerate", "zip")}}
+
+
+def desugar_suppress(repo: Repo, prefix: str = "werkzeug.datastructures") -> int:
+    """``with contextlib.suppress(E, ...): body`` is ``try: body / except (E, ...): pass``.  The CFG builder and the path
+    executor treat a ``with`` body as plain statements (no handler), so the statement is rewritten in place, once, in
+    the syntax trees of the container modules before any rule looks at them; locations are those of the ``with``."""
+    n = 0
+    for m in repo.modules.values():
+        if not m.name.startswith(prefix) or getattr(m, "_c08_suppress_done", False):
+            continue
+        m._c08_suppress_done = True  # type: ignore[attr-defined]
+        for node in list(ast.walk(m.tree)):
+            for field in ("body", "orelse", "finalbody"):
+                body = getattr(node, field, None)
+                if not isinstance(body, list):
+                    continue
+                for i, st in enumerate(body):
+                    if not (isinstance(st, ast.With) and len(st.items) == 1 and st.items[0].optional_vars is None):
+                        continue
+                    cx = st.items[0].context_expr
+                    if not (isinstance(cx, ast.Call) and cx.args and not cx.keywords and not any(isinstance(a, ast.Starred) for a in cx.args)):
+                        continue
+                    d = dotted(cx.func)
+                    if not d or repo.resolve(m, d) != "contextlib.suppress":
+                        continue
+                    tp: ast.expr = cx.args[0] if len(cx.args) == 1 else ast.Tuple(elts=list(cx.args), ctx=ast.Load())
+                    h = ast.ExceptHandler(type=tp, name=None, body=[ast.Pass()])
+                    new = ast.Try(body=st.body, handlers=[h], orelse=[], finalbody=[])
+                    for x in (new, h, h.body[0], tp):
+                        ast.copy_location(x, st)
+                    ast.fix_missing_locations(new)
+                    new._parent = node  # type: ignore[attr-defined]
+                    for par in ast.walk(new):
+                        for ch in ast.iter_child_nodes(par):
+                            ch._parent = par  # type: ignore[attr-defined]
+                    body[i] = new
+                    n += 1
+    return n
+
+
 class ScanExec(H.Exec):
     """the executor, additionally reporting the start of each ``for`` iteration: the loop header's read event is
     emitted on every evaluation of the header (element bound *and* iterator exhausted); the ``iterate`` event that
@@ -165,6 +208,9 @@ def explore(repo: Repo, cls: ClassInfo, fi: FuncInfo, loc: str, sentinels: set[s
             return a
         if k == "read" and ev[1] not in ("", loc):
             sc.follows.add(ev[1])  # self.<name> inside a comprehension term: a method read lazily
+            return a
+        if k == "read" and ev[1] == "" and ev[2] in SELF_CONSUMERS:
+            sc.follows.add(SELF_CONSUMERS[ev[2]])  # the object handed whole to its own protocol: sum(1 for _ in self), len(list(self))
             return a
         if k == "enter" and ev[-1] is not None and ev[-1] is not fi:
             sc.follows.add("=" + ev[-1].fq)
@@ -1214,4 +1260,1513 @@ def pickle_state_rule(ctx: Ctx, rid: str) -> int:
             via, fi = "__getstate__", gs
         ok, facts, bad = _PickleJudge(repo, c, md).judge(fi)
         ctx.ob(rid, f"{c.name}: the pickle reduction carries every value of every key", ok, f"{via} resolves to {fi.qualname}: " + ("; ".join(bad) if bad else "; ".join(facts)), fi, fi.node, f"{c.name} pickle state")
+    return n
+
+
+# ---------------------------------------------------------------------
+# R8.11 / R8.12: observers evaluated on a finite table of container states
+#
+# Constant propagation of concrete values (DESIGN 9.2): the observer methods are walked on their syntax trees with the
+# storage attribute of a modelled instance bound to each state of a small table; nothing of werkzeug is imported or
+# run.  The evaluator is the one of R15.7 (a copy of `_c15_helpers.Concrete`, below), extended here by what container code needs:
+# explicit raises of package exceptions caught by class (hierarchy from the loader's MRO), `del`, attribute stores on
+# the modelled instance, generator functions (collected eagerly; only pure ones complete), the container protocol of
+# the modelled instance (len / iter / in / item get go to the class's dunder methods) and the documented MultiDict
+# model for the wrapped dicts of the combined view.  Whatever leaves that subset ends in NotConcrete -> ANALYSIS-ERROR.
+
+# -- the concrete evaluator, a frozen copy of `_c15_helpers.Concrete` as committed with R15.7 (vendored so that C08 does not
+# -- move when C15's module is edited; ModelEval below extends it) -----------------------------------------------------
+
+
+class NotConcrete(Exception):
+    """the evaluation met something whose value is not determined by the given inputs and the source text."""
+
+    def __init__(self, why: str, node: ast.AST | None = None):
+        super().__init__(why)
+        self.why = why
+        self.node = node
+
+
+class ConcreteRaise(Exception):
+    """the evaluated code raises."""
+
+    def __init__(self, what: str, node: ast.AST | None = None):
+        super().__init__(what)
+        self.what = what
+        self.node = node
+
+
+class _Ret(Exception):
+    def __init__(self, value: t.Any):
+        self.value = value
+
+
+class _Brk(Exception):
+    pass
+
+
+class _Cont(Exception):
+    pass
+
+
+class CFn(t.NamedTuple):
+    """a function of the analysed package, as a value."""
+
+    node: t.Any
+    module: t.Any
+    closure: t.Any = None  # enclosing environment of a nested def / lambda
+
+
+class CExt(t.NamedTuple):
+    """something outside the package, by its dotted name (`re`, `re.sub`, `builtins.len`)."""
+
+    fq: str
+
+
+class Opaque:
+    """an input whose value the evaluation must not depend on; any operation on it ends the evaluation."""
+
+    def __init__(self, label: str):
+        self.label = label
+
+    def __repr__(self) -> str:
+        return f"<{self.label}>"
+
+
+# pure methods of immutable / freshly built values; they are *applied* to constants that come from the source text
+# and from the representative inputs - python's own str semantics are the trusted model here
+_PURE_METHODS: dict[type, set[str]] = {
+    str: {"endswith", "startswith", "rstrip", "lstrip", "strip", "removesuffix", "removeprefix", "rsplit", "split", "rpartition", "partition", "replace", "find", "rfind", "index", "rindex", "lower", "upper", "casefold", "isdigit", "isdecimal", "isnumeric", "isalpha", "isalnum", "isascii", "count", "join", "format", "title", "capitalize", "zfill", "splitlines", "encode", "translate", "center", "ljust", "rjust", "isspace", "islower", "isupper"},
+    bytes: {"decode", "endswith", "startswith", "rstrip", "lstrip", "strip", "removesuffix", "removeprefix", "rsplit", "split", "rpartition", "partition", "replace", "find", "rfind", "lower", "upper", "count", "join"},
+    dict: {"get", "keys", "values", "items", "copy"},
+    tuple: {"index", "count"},
+    list: {"index", "count", "copy"},
+    set: {"copy", "union", "intersection", "difference", "issubset", "issuperset", "isdisjoint"},
+    frozenset: {"copy", "union", "intersection", "difference", "issubset", "issuperset", "isdisjoint"},
+    int: {"bit_length"},
+}
+_MUTATORS: dict[type, set[str]] = {
+    list: {"append", "extend", "insert", "pop", "reverse", "sort", "clear", "remove"},
+    dict: {"update", "setdefault", "pop", "clear"},
+    set: {"add", "discard", "update", "remove", "clear"},
+}
+_PURE_BUILTINS = {"len", "str", "int", "bool", "tuple", "list", "dict", "set", "frozenset", "sorted", "reversed", "enumerate", "zip", "range", "min", "max", "any", "all", "isinstance", "repr", "ord", "chr", "abs", "sum", "map", "filter", "iter", "next", "bytes"}
+_PURE_EXT = {"re.sub", "re.fullmatch", "re.match", "re.search", "re.compile", "re.escape", "re.split", "re.findall", "operator.itemgetter", "typing.cast"}
+_TYPE_NAMES = {"builtins.str": str, "builtins.int": int, "builtins.bytes": bytes, "builtins.tuple": tuple, "builtins.list": list, "builtins.dict": dict, "builtins.bool": bool, "builtins.set": set, "builtins.frozenset": frozenset}
+
+
+class Concrete:
+    """evaluates a function of the package on concrete arguments by walking its syntax tree.
+
+    Only what is determined by the arguments and the source text is computed: constants, module-level constants,
+    displays, slicing, comparisons, boolean logic, f-strings, pure methods of str / bytes / dict / tuple / list / set
+    values, a few pure builtins and `re` functions, calls of other functions of the package (followed, bounded depth),
+    local containers mutated in place.  Anything else (attribute of an unknown object, an I/O call, an Opaque input)
+    raises NotConcrete: the caller reports an analysis error, never a verdict."""
+
+    def __init__(self, repo: Repo, max_steps: int = 20000, max_depth: int = 6):
+        self.repo = repo
+        self.steps = 0
+        self.max_steps = max_steps
+        self.max_depth = max_depth
+        self.depth = 0
+        self._modvals: dict[tuple[str, str], t.Any] = {}
+        self._busy: set[tuple[str, str]] = set()
+        self.calls: list[tuple[str, list, dict, ast.Call]] = []  # observed calls of `watch`ed external names
+        self.watch: dict[str, t.Callable[[list, dict], t.Any]] = {}
+
+    # -- entry --------------------------------------------------------------
+    def call(self, fn: CFn, args: list, kwargs: dict, node: ast.AST | None = None) -> t.Any:
+        if self.depth >= self.max_depth:
+            raise NotConcrete("call depth exceeded", node)
+        f = fn.node
+        env = self._bind(f, fn, args, kwargs, node)
+        self.depth += 1
+        try:
+            if isinstance(f, ast.Lambda):
+                return self.expr(f.body, env, fn.module)
+            try:
+                self.block(f.body, env, fn.module)
+            except _Ret as r:
+                return r.value
+            return None
+        finally:
+            self.depth -= 1
+
+    def _bind(self, f: t.Any, fn: CFn, args: list, kwargs: dict, node: ast.AST | None) -> dict:
+        a = f.args
+        env: dict[str, t.Any] = {"__closure__": fn.closure}
+        pos = [x.arg for x in a.posonlyargs + a.args]
+        defaults = dict(zip(pos[len(pos) - len(a.defaults) :], a.defaults))
+        kwdefaults = {x.arg: d for x, d in zip(a.kwonlyargs, a.kw_defaults) if d is not None}
+        rest = list(args)
+        for p in pos:
+            if rest:
+                env[p] = rest.pop(0)
+            elif p in kwargs:
+                env[p] = kwargs.pop(p)
+            elif p in defaults:
+                env[p] = self.expr(defaults[p], {"__closure__": fn.closure}, fn.module)
+            else:
+                raise NotConcrete(f"missing argument `{p}`", node)
+        if a.vararg is not None:
+            env[a.vararg.arg] = tuple(rest)
+        elif rest:
+            raise NotConcrete("too many positional arguments", node)
+        kw = dict(kwargs)
+        for x in a.kwonlyargs:
+            if x.arg in kw:
+                env[x.arg] = kw.pop(x.arg)
+            elif x.arg in kwdefaults:
+                env[x.arg] = self.expr(kwdefaults[x.arg], {"__closure__": fn.closure}, fn.module)
+            else:
+                raise NotConcrete(f"missing keyword argument `{x.arg}`", node)
+        for p in pos:
+            kw.pop(p, None)
+        if a.kwarg is not None:
+            env[a.kwarg.arg] = kw
+        elif kw:
+            raise NotConcrete(f"unexpected keyword argument(s) {sorted(kw)}", node)
+        return env
+
+    def tick(self, node: ast.AST | None) -> None:
+        self.steps += 1
+        if self.steps > self.max_steps:
+            raise NotConcrete("step budget exhausted", node)
+
+    # -- statements ---------------------------------------------------------
+    def block(self, body: list[ast.stmt], env: dict, m: t.Any) -> None:
+        for st in body:
+            self.stmt(st, env, m)
+
+    def stmt(self, st: ast.stmt, env: dict, m: t.Any) -> None:
+        self.tick(st)
+        if isinstance(st, ast.Expr):
+            if not isinstance(st.value, ast.Constant):
+                self.expr(st.value, env, m)
+        elif isinstance(st, ast.Assign):
+            v = self.expr(st.value, env, m)
+            for tg in st.targets:
+                self.assign(tg, v, env, m)
+        elif isinstance(st, ast.AnnAssign):
+            if st.value is not None:
+                self.assign(st.target, self.expr(st.value, env, m), env, m)
+        elif isinstance(st, ast.AugAssign):
+            cur = self.expr(_as_load(st.target), env, m)
+            self.assign(st.target, self.binop(st.op, cur, self.expr(st.value, env, m), st), env, m)
+        elif isinstance(st, ast.If):
+            self.block(st.body if self.truth(self.expr(st.test, env, m), st.test) else st.orelse, env, m)
+        elif isinstance(st, ast.Return):
+            raise _Ret(self.expr(st.value, env, m) if st.value is not None else None)
+        elif isinstance(st, ast.Raise):
+            raise ConcreteRaise(ast.unparse(st.exc)[:60] if st.exc is not None else "re-raise", st)
+        elif isinstance(st, ast.Pass):
+            pass
+        elif isinstance(st, (ast.FunctionDef, ast.AsyncFunctionDef)):
+            env[st.name] = CFn(st, m, env)
+        elif isinstance(st, (ast.Import, ast.ImportFrom)):
+            pass  # names are resolved through the module's import table
+        elif isinstance(st, ast.For):
+            broke = False
+            for item in self.iterate(self.expr(st.iter, env, m), st.iter):
+                self.assign(st.target, item, env, m)
+                try:
+                    self.block(st.body, env, m)
+                except _Brk:
+                    broke = True
+                    break
+                except _Cont:
+                    continue
+            if not broke:
+                self.block(st.orelse, env, m)
+        elif isinstance(st, ast.While):
+            broke = False
+            while self.truth(self.expr(st.test, env, m), st.test):
+                self.tick(st)
+                try:
+                    self.block(st.body, env, m)
+                except _Brk:
+                    broke = True
+                    break
+                except _Cont:
+                    continue
+            if not broke:
+                self.block(st.orelse, env, m)
+        elif isinstance(st, ast.Break):
+            raise _Brk()
+        elif isinstance(st, ast.Continue):
+            raise _Cont()
+        elif isinstance(st, ast.Assert):
+            if not self.truth(self.expr(st.test, env, m), st.test):
+                raise ConcreteRaise("AssertionError", st)
+        elif isinstance(st, ast.Try):
+            try:
+                try:
+                    self.block(st.body, env, m)
+                except ConcreteRaise as r:
+                    h = self.handler_for(st, r, m)
+                    if h.name is not None:
+                        env[h.name] = Opaque(f"the caught {r.what}")
+                    self.block(h.body, env, m)
+                else:
+                    self.block(st.orelse, env, m)
+            finally:
+                # (a finally block that itself returns / raises replaces what is in flight, as in python)
+                self.block(st.finalbody, env, m)
+        elif isinstance(st, ast.Match):
+            subject = self.plain(self.expr(st.subject, env, m), st.subject)
+            for case in st.cases:
+                bound: dict[str, t.Any] = {}
+                if self.matches(case.pattern, subject, bound, env, m):
+                    env.update(bound)
+                    if case.guard is None or self.truth(self.expr(case.guard, env, m), case.guard):
+                        self.block(case.body, env, m)
+                        break
+        else:
+            raise NotConcrete(f"statement `{type(st).__name__}`", st)
+
+    # the builtin exceptions the modelled operations raise, with their bases
+    _EXC_BASES = {
+        "IndexError": ("IndexError", "LookupError", "Exception", "BaseException"),
+        "KeyError": ("KeyError", "LookupError", "Exception", "BaseException"),
+        "LookupError": ("LookupError", "Exception", "BaseException"),
+        "ValueError": ("ValueError", "Exception", "BaseException"),
+        "ValueError (unpack)": ("ValueError", "Exception", "BaseException"),
+        "UnicodeError": ("UnicodeError", "ValueError", "Exception", "BaseException"),
+        "UnicodeDecodeError": ("UnicodeDecodeError", "UnicodeError", "ValueError", "Exception", "BaseException"),
+        "UnicodeEncodeError": ("UnicodeEncodeError", "UnicodeError", "ValueError", "Exception", "BaseException"),
+        "TypeError": ("TypeError", "Exception", "BaseException"),
+        "ZeroDivisionError": ("ZeroDivisionError", "ArithmeticError", "Exception", "BaseException"),
+        "StopIteration": ("StopIteration", "Exception", "BaseException"),
+        "AssertionError": ("AssertionError", "Exception", "BaseException"),
+    }
+
+    def handler_for(self, st: ast.Try, r: ConcreteRaise, m: t.Any) -> ast.ExceptHandler:
+        """the except clause that catches a builtin exception raised by a modelled operation inside the try body; the
+        exception propagates (re-raised) when none does; NotConcrete when that cannot be told."""
+        bases = self._EXC_BASES.get(r.what)
+        if bases is None:
+            raise NotConcrete(f"an exception ({r.what}) inside a try block is not followed", st)
+        for h in st.handlers:
+            if h.type is None:
+                return h
+            tps = h.type.elts if isinstance(h.type, ast.Tuple) else [h.type]
+            for tp in tps:
+                d = dotted(tp)
+                fq = self.repo.resolve(m, d) if d else None
+                nm = fq[9:] if fq and fq.startswith("builtins.") else None
+                if nm is None:
+                    raise NotConcrete(f"`except {ast.unparse(tp)[:40]}`: not a builtin exception class", h)
+                if nm in bases:
+                    return h
+        raise r
+
+    def matches(self, p: ast.AST, v: t.Any, bound: dict, env: dict, m: t.Any) -> bool:
+        """structural pattern matching on plain values: literals, dotted constants, `|`, captures / wildcard, sequences."""
+        if isinstance(p, ast.MatchValue):
+            return self.compare(ast.Eq(), v, self.expr(p.value, env, m), p)
+        if isinstance(p, ast.MatchSingleton):
+            return v is p.value
+        if isinstance(p, ast.MatchOr):
+            return any(self.matches(x, v, bound, env, m) for x in p.patterns)
+        if isinstance(p, ast.MatchAs):
+            if p.pattern is not None and not self.matches(p.pattern, v, bound, env, m):
+                return False
+            if p.name is not None:
+                bound[p.name] = v
+            return True
+        if isinstance(p, ast.MatchSequence) and not any(isinstance(x, ast.MatchStar) for x in p.patterns):
+            if not isinstance(v, (tuple, list)) or len(v) != len(p.patterns):
+                return False
+            return all(self.matches(x, y, bound, env, m) for x, y in zip(p.patterns, v))
+        raise NotConcrete(f"match pattern `{type(p).__name__}`", p)
+
+    def assign(self, tg: ast.AST, v: t.Any, env: dict, m: t.Any) -> None:
+        if isinstance(tg, ast.Name):
+            env[tg.id] = v
+        elif isinstance(tg, (ast.Tuple, ast.List)):
+            items = list(self.iterate(v, tg))
+            star = [i for i, e in enumerate(tg.elts) if isinstance(e, ast.Starred)]
+            if star:
+                i = star[0]
+                after = len(tg.elts) - i - 1
+                if len(items) < len(tg.elts) - 1:
+                    raise ConcreteRaise("ValueError (unpack)", tg)
+                parts = items[:i] + [items[i : len(items) - after]] + items[len(items) - after :]
+                for e, x in zip(tg.elts, parts):
+                    self.assign(e.value if isinstance(e, ast.Starred) else e, x, env, m)
+            else:
+                if len(items) != len(tg.elts):
+                    raise ConcreteRaise("ValueError (unpack)", tg)
+                for e, x in zip(tg.elts, items):
+                    self.assign(e, x, env, m)
+        elif isinstance(tg, ast.Subscript):
+            obj = self.expr(tg.value, env, m)
+            if not isinstance(obj, (list, dict)):
+                raise NotConcrete("item store into a non-local container", tg)
+            obj[self.index(tg.slice, env, m)] = v
+        else:
+            raise NotConcrete(f"assignment target `{ast.unparse(tg)[:40]}`", tg)
+
+    # -- expressions ----------------------------------------------------------
+    def truth(self, v: t.Any, node: ast.AST | None) -> bool:
+        if isinstance(v, Opaque):
+            raise NotConcrete(f"the decision depends on {v!r}", node)
+        if isinstance(v, (CFn, CExt)):
+            return True
+        return bool(v)
+
+    def iterate(self, v: t.Any, node: ast.AST | None) -> t.Iterable:
+        if isinstance(v, (str, bytes, tuple, list, dict, set, frozenset, range)):
+            return list(v)
+        if isinstance(v, (enumerate, zip, map, filter, reversed)) or type(v).__name__ in ("dict_keys", "dict_values", "dict_items", "list_iterator", "tuple_iterator", "generator", "str_ascii_iterator"):
+            return list(v)
+        raise NotConcrete(f"iteration over {type(v).__name__}", node)
+
+    def index(self, s: ast.AST, env: dict, m: t.Any) -> t.Any:
+        if isinstance(s, ast.Slice):
+            return slice(*(self.expr(x, env, m) if x is not None else None for x in (s.lower, s.upper, s.step)))
+        return self.expr(s, env, m)
+
+    def name(self, e: ast.Name, env: dict, m: t.Any) -> t.Any:
+        cur: dict | None = env
+        while cur is not None:
+            if e.id in cur:
+                return cur[e.id]
+            cur = cur.get("__closure__")
+        return self.module_value(m, e.id, e)
+
+    def module_value(self, m: t.Any, name: str, node: ast.AST | None) -> t.Any:
+        key = (m.name, name)
+        if key in self._modvals:
+            return self._modvals[key]
+        if name in m.functions:
+            v: t.Any = CFn(m.functions[name].node, m)
+        elif name in m.assigns:
+            vals = m.assigns[name]
+            if len(vals) != 1:
+                raise NotConcrete(f"module-level `{name}` is bound {len(vals)} times", node)
+            if key in self._busy:
+                raise NotConcrete(f"module-level `{name}` is defined through itself", node)
+            self._busy.add(key)
+            try:
+                v = self.expr(vals[0], {"__closure__": None}, m)
+            finally:
+                self._busy.discard(key)
+        elif name in m.classes:
+            v = CCls(m.classes[name].fq)
+        else:
+            fq = self.repo.resolve(m, name)
+            v = self.from_fq(fq, node)
+        self._modvals[key] = v
+        return v
+
+    def from_fq(self, fq: str | None, node: ast.AST | None) -> t.Any:
+        if fq is None:
+            raise NotConcrete("unresolved name", node)
+        if fq in ("builtins.True", "builtins.False", "builtins.None"):
+            return {"True": True, "False": False, "None": None}[fq.split(".")[1]]
+        fi = self.repo.try_func(fq) if fq.startswith("werkzeug.") else None
+        if fi is not None:
+            return CFn(fi.node, fi.module)
+        if fq.startswith("werkzeug.") and self.repo.try_cls(fq) is not None:
+            return CCls(fq)
+        if fq.startswith("werkzeug."):
+            mn, _, attr = fq.rpartition(".")
+            if mn in self.repo.modules and attr in self.repo.modules[mn].assigns:
+                return self.module_value(self.repo.modules[mn], attr, node)
+            if fq in self.repo.modules:
+                return CExt(fq)
+            raise NotConcrete(f"`{fq}` is not a function or constant of the package", node)
+        return CExt(fq)
+
+    def expr(self, e: ast.AST | None, env: dict, m: t.Any) -> t.Any:
+        self.tick(e)
+        if e is None:
+            return None
+        if isinstance(e, ast.Constant):
+            return e.value
+        if isinstance(e, ast.Name):
+            return self.name(e, env, m)
+        if isinstance(e, ast.JoinedStr):
+            out = []
+            for v in e.values:
+                if isinstance(v, ast.Constant):
+                    out.append(str(v.value))
+                    continue
+                x = self.plain(self.expr(v.value, env, m), v)  # type: ignore[attr-defined]
+                if v.conversion == 114:  # type: ignore[attr-defined]
+                    x = repr(x)
+                elif v.conversion == 115:  # type: ignore[attr-defined]
+                    x = str(x)
+                spec = self.expr(v.format_spec, env, m) if v.format_spec is not None else ""  # type: ignore[attr-defined]
+                out.append(format(x, spec))
+            return "".join(out)
+        if isinstance(e, ast.Tuple):
+            return tuple(self.elements(e.elts, env, m))
+        if isinstance(e, ast.List):
+            return list(self.elements(e.elts, env, m))
+        if isinstance(e, ast.Set):
+            return set(self.hashable(x, e) for x in self.elements(e.elts, env, m))
+        if isinstance(e, ast.Dict):
+            d: dict = {}
+            for k, v in zip(e.keys, e.values):
+                if k is None:
+                    sub = self.expr(v, env, m)
+                    if not isinstance(sub, dict):
+                        raise NotConcrete("`**` of a non-dict", e)
+                    d.update(sub)
+                else:
+                    d[self.hashable(self.expr(k, env, m), k)] = self.expr(v, env, m)
+            return d
+        if isinstance(e, ast.IfExp):
+            return self.expr(e.body if self.truth(self.expr(e.test, env, m), e.test) else e.orelse, env, m)
+        if isinstance(e, ast.BoolOp):
+            v = None
+            for x in e.values:
+                v = self.expr(x, env, m)
+                t_ = self.truth(v, x)
+                if (isinstance(e.op, ast.And) and not t_) or (isinstance(e.op, ast.Or) and t_):
+                    return v
+            return v
+        if isinstance(e, ast.UnaryOp):
+            v = self.plain(self.expr(e.operand, env, m), e)
+            if isinstance(e.op, ast.Not):
+                return not self.truth(v, e)
+            if isinstance(e.op, ast.USub) and isinstance(v, int):
+                return -v
+            if isinstance(e.op, ast.UAdd) and isinstance(v, int):
+                return +v
+            raise NotConcrete(f"`{ast.unparse(e)[:40]}`", e)
+        if isinstance(e, ast.BinOp):
+            return self.binop(e.op, self.expr(e.left, env, m), self.expr(e.right, env, m), e)
+        if isinstance(e, ast.Compare):
+            left = self.expr(e.left, env, m)
+            for op, r in zip(e.ops, e.comparators):
+                right = self.expr(r, env, m)
+                if not self.compare(op, left, right, e):
+                    return False
+                left = right
+            return True
+        if isinstance(e, ast.Subscript):
+            v = self.plain(self.expr(e.value, env, m), e)
+            i = self.index(e.slice, env, m)
+            if not isinstance(v, (str, bytes, tuple, list, dict, range)):
+                raise NotConcrete(f"subscript of {type(v).__name__}", e)
+            try:
+                return v[i]
+            except (IndexError, KeyError, TypeError) as x:
+                raise ConcreteRaise(type(x).__name__, e)
+        if isinstance(e, ast.NamedExpr):
+            v = self.expr(e.value, env, m)
+            env[e.target.id] = v
+            return v
+        if isinstance(e, ast.Lambda):
+            return CFn(e, m, env)
+        if isinstance(e, (ast.ListComp, ast.SetComp, ast.GeneratorExp, ast.DictComp)):
+            return self.comp(e, env, m)
+        if isinstance(e, ast.Attribute):
+            d = dotted(e)
+            head = d.split(".")[0] if d else None
+            if d is not None and head is not None and not self._bound(head, env):
+                base = self.module_value(m, head, e) if (head in m.assigns or head in m.functions) else None
+                if base is None:
+                    return self.from_fq(self.repo.resolve(m, d), e)
+            v = self.expr(e.value, env, m)
+            if isinstance(v, CExt):
+                return self.from_fq(f"{v.fq}.{e.attr}", e)
+            if isinstance(v, CObj):
+                return self.getattr_obj(v, e.attr, e)
+            return _Bound(self.plain(v, e), e.attr)
+        if isinstance(e, ast.Call):
+            return self.call_expr(e, env, m)
+        if isinstance(e, ast.Starred):
+            raise NotConcrete("starred expression", e)
+        raise NotConcrete(f"expression `{type(e).__name__}`", e)
+
+    @staticmethod
+    def _bound(name: str, env: dict) -> bool:
+        cur: dict | None = env
+        while cur is not None:
+            if name in cur:
+                return True
+            cur = cur.get("__closure__")
+        return False
+
+    def plain(self, v: t.Any, node: ast.AST | None) -> t.Any:
+        if isinstance(v, Opaque):
+            raise NotConcrete(f"the value depends on {v!r}", node)
+        return v
+
+    def hashable(self, v: t.Any, node: ast.AST | None) -> t.Any:
+        v = self.plain(v, node)
+        try:
+            hash(v)
+        except TypeError:
+            raise NotConcrete("unhashable element", node)
+        return v
+
+    def elements(self, elts: list, env: dict, m: t.Any) -> list:
+        out: list = []
+        for x in elts:
+            if isinstance(x, ast.Starred):
+                out += list(self.iterate(self.expr(x.value, env, m), x))
+            else:
+                out.append(self.expr(x, env, m))
+        return out
+
+    def comp(self, e: t.Any, env: dict, m: t.Any) -> t.Any:
+        out: list = []
+        scope = {"__closure__": env}
+
+        def rec(i: int) -> None:
+            if i == len(e.generators):
+                if isinstance(e, ast.DictComp):
+                    out.append((self.hashable(self.expr(e.key, scope, m), e), self.expr(e.value, scope, m)))
+                else:
+                    out.append(self.expr(e.elt, scope, m))
+                return
+            g = e.generators[i]
+            for item in self.iterate(self.expr(g.iter, scope, m), g.iter):
+                self.assign(g.target, item, scope, m)
+                if all(self.truth(self.expr(c, scope, m), c) for c in g.ifs):
+                    rec(i + 1)
+
+        rec(0)
+        if isinstance(e, ast.SetComp):
+            return set(self.hashable(x, e) for x in out)
+        if isinstance(e, ast.DictComp):
+            return dict(out)
+        return out  # a generator is consumed by whoever receives it: a list behaves the same for pure consumers
+
+    def binop(self, op: ast.operator, a: t.Any, b: t.Any, node: ast.AST) -> t.Any:
+        a, b = self.plain(a, node), self.plain(b, node)
+        ok = (str, bytes, int, tuple, list)
+        if not isinstance(a, ok + (set, frozenset, dict)) or not isinstance(b, ok + (set, frozenset, dict)):
+            raise NotConcrete(f"operator on {type(a).__name__} / {type(b).__name__}", node)
+        try:
+            if isinstance(op, ast.Add):
+                return a + b
+            if isinstance(op, ast.Sub):
+                return a - b
+            if isinstance(op, ast.Mult):
+                return a * b
+            if isinstance(op, ast.Mod):
+                return a % b
+            if isinstance(op, ast.FloorDiv):
+                return a // b
+            if isinstance(op, ast.BitOr):
+                return a | b
+            if isinstance(op, ast.BitAnd):
+                return a & b
+        except (TypeError, ValueError, ZeroDivisionError) as x:
+            raise ConcreteRaise(type(x).__name__, node)
+        raise NotConcrete(f"operator `{type(op).__name__}`", node)
+
+    def compare(self, op: ast.cmpop, a: t.Any, b: t.Any, node: ast.AST) -> bool:
+        if isinstance(op, (ast.Is, ast.IsNot)):
+            if isinstance(a, Opaque) or isinstance(b, Opaque):
+                other = b if isinstance(a, Opaque) else a
+                if other is None:
+                    return isinstance(op, ast.IsNot)  # an Opaque input stands for some object, not for None
+                raise NotConcrete("identity test on an undetermined value", node)
+            same = a is b or (a is None and b is None) or (isinstance(a, bool) and isinstance(b, bool) and a == b)
+            return same if isinstance(op, ast.Is) else not same
+        a, b = self.plain(a, node), self.plain(b, node)
+        try:
+            if isinstance(op, ast.Eq):
+                return a == b
+            if isinstance(op, ast.NotEq):
+                return a != b
+            if isinstance(op, ast.In):
+                return a in b
+            if isinstance(op, ast.NotIn):
+                return a not in b
+            if isinstance(op, ast.Lt):
+                return a < b
+            if isinstance(op, ast.LtE):
+                return a <= b
+            if isinstance(op, ast.Gt):
+                return a > b
+            if isinstance(op, ast.GtE):
+                return a >= b
+        except TypeError:
+            raise ConcreteRaise("TypeError", node)
+        raise NotConcrete("comparison", node)
+
+    # -- calls ------------------------------------------------------------------
+    def arguments(self, c: ast.Call, env: dict, m: t.Any) -> tuple[list, dict]:
+        args = self.elements(c.args, env, m)
+        kw: dict = {}
+        for k in c.keywords:
+            v = self.expr(k.value, env, m)
+            if k.arg is None:
+                if not isinstance(v, dict):
+                    raise NotConcrete("`**` of a non-dict", c)
+                kw.update(v)
+            else:
+                kw[k.arg] = v
+        return args, kw
+
+    def call_expr(self, c: ast.Call, env: dict, m: t.Any) -> t.Any:
+        f = self.expr(c.func, env, m)
+        args, kw = self.arguments(c, env, m)
+        return self.apply(f, args, kw, c)
+
+    def apply(self, f: t.Any, args: list, kw: dict, c: ast.AST) -> t.Any:
+        if isinstance(f, CFn):
+            return self.call(f, args, kw, c)
+        if isinstance(f, _Partial):
+            return self.apply(f.fn, list(f.args) + args, {**f.kw, **kw}, c)
+        if isinstance(f, CExt):
+            if f.fq in self.watch:
+                self.calls.append((f.fq, args, kw, c))  # type: ignore[arg-type]
+                return self.watch[f.fq](args, kw)
+            if f.fq == "functools.partial" and args:
+                return _Partial(args[0], tuple(args[1:]), dict(kw))
+            mod, _, nm = f.fq.rpartition(".")
+            if mod == "builtins" and nm in _PURE_BUILTINS:
+                return self.builtin(nm, args, kw, c)
+            if f.fq in _PURE_EXT:
+                return self.external(f.fq, args, kw, c)
+            raise NotConcrete(f"call of `{f.fq}`", c)
+        if isinstance(f, _Bound):
+            return self.method(f.obj, f.attr, args, kw, c)
+        if isinstance(f, _Getter):
+            return f(args)
+        if isinstance(f, CStub):
+            return CMade(f.label, tuple(args), tuple(sorted(kw.items())))
+        if isinstance(f, CCls):
+            return CMade(f.fq, tuple(args), tuple(sorted(kw.items())))
+        if isinstance(f, _Method):
+            return self.call(f.fn, [f.obj] + args, kw, c)
+        raise NotConcrete(f"call of a {type(f).__name__} value", c)
+
+    def getattr_obj(self, o: "CObj", attr: str, node: ast.AST) -> t.Any:
+        """attribute of a modelled instance: a given attribute value, or a method / property of its class."""
+        if attr in o.attrs:
+            return o.attrs[attr]
+        ci = self.repo.try_cls(o.cls) if o.cls else None
+        owner, fi = self.repo.lookup(ci, attr) if ci is not None else (None, None)
+        if isinstance(fi, ast.AST) and owner is not None and hasattr(owner, "module"):
+            return self.expr(fi, {"__closure__": None}, owner.module)  # a class attribute
+        if isinstance(fi, FuncInfo):
+            decs = [d.rsplit(".", 1)[-1] for d in fi.decorators]
+            fn = CFn(fi.node, fi.module)
+            if "property" in decs or "cached_property" in decs:
+                return self.call(fn, [o], {}, node)
+            if "staticmethod" in decs:
+                return fn
+            return _Method(fn, o)
+        raise NotConcrete(f"attribute `{attr}` of the modelled {o.cls or 'object'} is not given", node)
+
+    def method(self, obj: t.Any, attr: str, args: list, kw: dict, c: ast.AST) -> t.Any:
+        for a in list(args) + list(kw.values()):
+            self.plain(a, c)
+        if isinstance(obj, _Rx):
+            return self.external(f"re.{attr}", [obj, *args], kw, c)
+        if isinstance(obj, _M):
+            if attr in ("group", "groups", "start", "end", "span", "groupdict"):
+                return getattr(obj.m, attr)(*args, **kw)
+            raise NotConcrete(f"match.{attr}", c)
+        tp = type(obj)
+        if attr in _PURE_METHODS.get(tp, ()) or attr in _MUTATORS.get(tp, ()):
+            if tp is str and attr == "join":
+                args = [[self.plain(x, c) for x in self.iterate(args[0], c)]] if args else args
+            if tp is str and attr == "translate":
+                raise NotConcrete("str.translate", c)
+            try:
+                return getattr(obj, attr)(*args, **kw)
+            except (TypeError, ValueError, IndexError, KeyError, LookupError, UnicodeError) as x:
+                raise ConcreteRaise(type(x).__name__, c)
+        raise NotConcrete(f"method `{attr}` of a {tp.__name__}", c)
+
+    def builtin(self, nm: str, args: list, kw: dict, c: ast.AST) -> t.Any:
+        import builtins
+
+        if nm == "isinstance":
+            if len(args) != 2:
+                raise NotConcrete("isinstance arity", c)
+            tps = args[1] if isinstance(args[1], tuple) else (args[1],)
+            py = []
+            for x in tps:
+                if isinstance(x, CExt) and x.fq in _TYPE_NAMES:
+                    py.append(_TYPE_NAMES[x.fq])
+                else:
+                    raise NotConcrete("isinstance against a class that is not a builtin value type", c)
+            return isinstance(self.plain(args[0], c), tuple(py))
+        if nm in ("map", "filter"):
+            fn, *seqs = args
+            lists = [list(self.iterate(s, c)) for s in seqs]
+            if nm == "map":
+                return [self.apply(fn, list(xs), {}, c) for xs in zip(*lists)]
+            return [x for x in lists[0] if (self.truth(self.apply(fn, [x], {}, c), c) if fn is not None else self.truth(x, c))]
+        if nm in ("sorted", "min", "max") and "key" in kw:
+            key = kw.pop("key")
+            kw["key"] = lambda x: self.apply(key, [x], {}, c)
+        if nm in ("any", "all", "sum", "sorted", "min", "max", "tuple", "list", "set", "frozenset", "enumerate", "zip", "reversed", "iter", "dict") and args:
+            args = [list(self.iterate(a, c)) if not isinstance(a, (int, dict)) and not (nm in ("min", "max") and len(args) > 1) else a for a in args]
+        if nm == "next":
+            it = args[0]
+            if isinstance(it, list):  # a comprehension evaluated eagerly
+                if it:
+                    return it[0]
+                if len(args) > 1:
+                    return args[1]
+                raise ConcreteRaise("StopIteration", c)
+        for a in list(args) + list(kw.values()):
+            if isinstance(a, (CFn, CExt, _Bound)):
+                raise NotConcrete(f"{nm}() of a function value", c)
+            self.plain(a, c)
+        try:
+            return getattr(builtins, nm)(*args, **kw)
+        except (TypeError, ValueError, IndexError, KeyError, StopIteration, UnicodeError) as x:
+            raise ConcreteRaise(type(x).__name__, c)
+
+    def external(self, fq: str, args: list, kw: dict, c: ast.AST) -> t.Any:
+        import re
+
+        for a in list(args) + list(kw.values()):
+            self.plain(a, c)
+        if fq == "typing.cast" and len(args) == 2:
+            return args[1]
+        if fq == "operator.itemgetter" and len(args) == 1:
+            return _Getter(args[0])
+        flags = kw.pop("flags", 0)
+        if isinstance(flags, CExt):
+            raise NotConcrete("regex flags", c)
+        if args and isinstance(args[0], _Rx):
+            flags = flags | args[0].flags
+            args = [args[0].pattern, *args[1:]]
+        if not args or not isinstance(args[0], (str, bytes)):
+            raise NotConcrete(f"`{fq}` without a constant pattern", c)
+        try:
+            if fq == "re.compile":
+                re.compile(args[0], flags if not args[1:] else args[1])
+                return _Rx(args[0], flags if not args[1:] else args[1])
+            if fq == "re.escape":
+                return re.escape(args[0])
+            if fq == "re.sub":
+                if not isinstance(args[1], (str, bytes)):
+                    raise NotConcrete("re.sub with a callable replacement", c)
+                return re.sub(args[0], args[1], args[2], *args[3:], flags=flags, **kw)
+            if fq in ("re.split", "re.findall"):
+                return getattr(re, fq[3:])(*args, flags=flags, **kw)
+            mt = getattr(re, fq[3:])(*args, flags=flags, **kw)
+            return _M(mt) if mt is not None else None
+        except (re.error, TypeError, IndexError) as x:
+            raise ConcreteRaise(type(x).__name__, c)
+
+
+class _Bound(t.NamedTuple):
+    obj: t.Any
+    attr: str
+
+
+class _Method(t.NamedTuple):
+    fn: CFn
+    obj: t.Any
+
+
+class CObj:
+    """a modelled instance: the attributes that are given, methods / properties looked up in the package class."""
+
+    def __init__(self, cls: str | None, attrs: dict[str, t.Any]):
+        self.cls = cls
+        self.attrs = attrs
+
+
+class CCls(t.NamedTuple):
+    """a class of the package as a value; calling it gives a CMade record of the arguments."""
+
+    fq: str
+
+
+class CStub(t.NamedTuple):
+    """a callable whose call is only recorded (CMade)."""
+
+    label: str
+
+
+class CMade(t.NamedTuple):
+    label: str
+    args: tuple
+    kw: tuple
+
+
+class _Partial(t.NamedTuple):
+    fn: t.Any
+    args: tuple
+    kw: dict
+
+
+class _Rx(t.NamedTuple):
+    pattern: t.Any
+    flags: int
+
+
+class _M:
+    def __init__(self, m: t.Any):
+        self.m = m
+
+
+class _Getter:
+    def __init__(self, i: t.Any):
+        self.i = i
+
+    def __call__(self, args: list) -> t.Any:
+        return args[0][self.i]
+
+
+def _as_load(tg: ast.AST) -> ast.AST:
+    import copy
+
+    n = copy.copy(tg)
+    if hasattr(n, "ctx"):
+        n.ctx = ast.Load()  # type: ignore[attr-defined]
+    return n
+
+
+# -- end of the vendored evaluator ---------------------------------------------------------------------------------------
+
+HEADERS = "datastructures.headers.Headers"
+
+
+class ModelRaise(ConcreteRaise):
+    """an exception raised by a ``raise`` statement of the evaluated code (or a modelled builtin operation), with the
+    fully qualified names of its class and all its bases."""
+
+    def __init__(self, what: str, bases: set[str], value: t.Any, node: ast.AST | None = None):
+        super().__init__(what, node)
+        self.bases = bases
+        self.value = value
+
+
+class ModelMD(dict):
+    """the documented model of a wrapped MultiDict for the readers of the combined view: a dict key -> non-empty list
+    of values, item access gives the first value.  (The trusted model; werkzeug's MultiDict itself is not run.)"""
+
+    READERS = {"get", "getlist", "keys", "values", "items", "lists", "listvalues", "to_dict", "copy", "__contains__", "__len__", "__iter__", "__getitem__"}
+
+    def __getitem__(self, k):  # type: ignore[override]
+        return dict.__getitem__(self, k)[0]
+
+    def get(self, k, default=None):  # type: ignore[override]
+        return dict.__getitem__(self, k)[0] if k in self else default
+
+    def getlist(self, k):
+        return list(dict.__getitem__(self, k)) if k in self else []
+
+    def values(self):  # type: ignore[override]
+        return [v[0] for v in dict.values(self)]
+
+    def listvalues(self):
+        return [list(v) for v in dict.values(self)]
+
+    def lists(self):
+        return [(k, list(v)) for k, v in dict.items(self)]
+
+    def items(self, multi=False):  # type: ignore[override]
+        return [(k, x) for k, v in dict.items(self) for x in v] if multi else [(k, v[0]) for k, v in dict.items(self)]
+
+    def to_dict(self, flat=True):
+        return dict(self.items()) if flat else dict(self.lists())
+
+
+def _scope_nodes(f: ast.AST) -> t.Iterator[ast.AST]:
+    todo = list(ast.iter_child_nodes(f))
+    while todo:
+        n = todo.pop()
+        yield n
+        if not isinstance(n, (ast.FunctionDef, ast.AsyncFunctionDef, ast.Lambda, ast.ClassDef)):
+            todo.extend(ast.iter_child_nodes(n))
+
+
+def _is_generator(f: ast.AST) -> bool:
+    return any(isinstance(n, (ast.Yield, ast.YieldFrom)) for n in _scope_nodes(f))
+
+
+_PURE_EXTRA = {"itertools.chain", "itertools.chain.from_iterable", "functools.reduce", "builtins.set.union", "builtins.frozenset.union", "builtins.dict.fromkeys", "builtins.set.update", "operator.or_", "builtins.dict.keys"}
+_LAZY = (enumerate, zip, reversed)
+_VIEW_TYPES = ("dict_keys", "dict_items")
+_VALUE_TYPES = {"builtins.str": str, "builtins.int": int, "builtins.bytes": bytes, "builtins.tuple": tuple, "builtins.list": list, "builtins.dict": dict, "builtins.bool": bool, "builtins.set": set, "builtins.frozenset": frozenset, "builtins.slice": slice, "builtins.float": float}
+
+
+# the evaluator's records for functions / classes / instances of unmodelled classes are NamedTuples: they stand for
+# objects and must never be measured, iterated, indexed or compared as the tuples they happen to be
+_RECORDS = (CMade, CCls, CExt, CFn, _Bound, _Method, _Partial)
+
+
+class ModelEval(Concrete):
+    def _no_record(self, v: t.Any, what: str, node: ast.AST | None) -> t.Any:
+        if isinstance(v, _RECORDS):
+            raise NotConcrete(f"{what} of an object outside the modelled subset ({getattr(v, 'label', None) or getattr(v, 'fq', None) or type(v).__name__})", node)
+        return v
+
+    def __init__(self, repo: Repo, max_steps: int = 50000, max_depth: int = 8):
+        super().__init__(repo, max_steps=max_steps, max_depth=max_depth)
+        self._inflight: list[ConcreteRaise] = []
+
+    # -- exceptions -----------------------------------------------------------
+    def _exc_bases(self, fq: str, node: ast.AST | None) -> set[str] | None:
+        import builtins
+
+        if fq.startswith("builtins."):
+            k = getattr(builtins, fq[9:], None)
+            if isinstance(k, type) and issubclass(k, BaseException):
+                return {f"builtins.{b.__name__}" for b in k.__mro__ if b is not object}
+            return None
+        ci = self.repo.try_cls(fq)
+        if ci is None:
+            return None
+        names = {k.fq if isinstance(k, ClassInfo) else (k.fq if "." in k.fq else f"builtins.{k.fq}") for k in self.repo.mro(ci)}
+        out: set[str] = set()
+        for n in names:
+            out.add(n)
+            if n.startswith("builtins."):
+                out |= self._exc_bases(n, node) or set()
+        if "builtins.BaseException" not in out:
+            return None
+        return out
+
+    def _raise_of(self, r: ConcreteRaise) -> set[str] | None:
+        if isinstance(r, ModelRaise):
+            return r.bases
+        b = self._EXC_BASES.get(r.what)
+        return {f"builtins.{x}" for x in b} if b is not None else None
+
+    def handler_for(self, st: ast.Try, r: ConcreteRaise, m: t.Any) -> ast.ExceptHandler:  # type: ignore[override]
+        bases = self._raise_of(r)
+        if bases is None:
+            raise NotConcrete(f"an exception ({r.what}) inside a try block is not followed", st)
+        for h in st.handlers:
+            if h.type is None:
+                return h
+            tps = h.type.elts if isinstance(h.type, ast.Tuple) else [h.type]
+            for tp in tps:
+                d = dotted(tp)
+                fq = self.repo.resolve(m, d) if d else None
+                if fq is None:
+                    raise NotConcrete(f"`except {ast.unparse(tp)[:40]}`: class not resolved", h)
+                if fq in bases:
+                    return h
+        raise r
+
+    def stmt(self, st: ast.stmt, env: dict, m: t.Any) -> None:  # type: ignore[override]
+        if isinstance(st, ast.Raise):
+            self.tick(st)
+            if st.exc is None:
+                if self._inflight:
+                    raise self._inflight[-1]
+                raise NotConcrete("bare raise outside a handler", st)
+            v = self.expr(st.exc, env, m)
+            if isinstance(v, (CCls, CExt)):
+                v = CMade(v.fq, (), ())
+            if isinstance(v, ConcreteRaise):
+                raise v  # `except E as e: ... raise e`
+            if isinstance(v, CMade):
+                bases = self._exc_bases(v.label, st)
+                if bases is not None:
+                    raise ModelRaise(v.label.rsplit(".", 1)[-1], bases, v, st)
+            raise NotConcrete(f"raise of `{ast.unparse(st.exc)[:50]}`", st)
+        if isinstance(st, ast.Try):
+            self.tick(st)
+            try:
+                try:
+                    self.block(st.body, env, m)
+                except ConcreteRaise as r:
+                    h = self.handler_for(st, r, m)
+                    if h.name is not None:
+                        env[h.name] = r
+                    self._inflight.append(r)
+                    try:
+                        self.block(h.body, env, m)
+                    finally:
+                        self._inflight.pop()
+                else:
+                    self.block(st.orelse, env, m)
+            finally:
+                self.block(st.finalbody, env, m)
+            return
+        if isinstance(st, ast.Delete):
+            self.tick(st)
+            for tg in st.targets:
+                if isinstance(tg, ast.Name) and tg.id in env:
+                    del env[tg.id]
+                elif isinstance(tg, ast.Subscript):
+                    obj = self.expr(tg.value, env, m)
+                    if isinstance(obj, CObj):
+                        self._dunder(obj, "__delitem__", [self.index(tg.slice, env, m)], tg)
+                        continue
+                    if not isinstance(obj, (list, dict)) or isinstance(obj, ModelMD):
+                        raise NotConcrete("item deletion on a non-local container", tg)
+                    try:
+                        del obj[self.index(tg.slice, env, m)]
+                    except (IndexError, KeyError, TypeError) as x:
+                        raise ConcreteRaise(type(x).__name__, tg)
+                else:
+                    raise NotConcrete(f"del `{ast.unparse(tg)[:40]}`", tg)
+            return
+        if isinstance(st, ast.Expr) and isinstance(st.value, ast.Constant):
+            return
+        if isinstance(st, ast.With):
+            self.tick(st)
+            names: list[str] = []
+            for it in st.items:
+                cx = it.context_expr
+                fq = self.repo.resolve(m, dotted(cx.func) or "") if isinstance(cx, ast.Call) and dotted(cx.func) else None
+                if fq != "contextlib.suppress" or it.optional_vars is not None or cx.keywords:  # type: ignore[union-attr]
+                    raise NotConcrete("with statement other than contextlib.suppress(...)", st)
+                for a in cx.args:  # type: ignore[union-attr]
+                    afq = self.repo.resolve(m, dotted(a) or "") if dotted(a) else None
+                    if afq is None:
+                        raise NotConcrete("suppress(...) of an unresolved class", st)
+                    names.append(afq)
+            try:
+                self.block(st.body, env, m)
+            except ConcreteRaise as r:
+                bases = self._raise_of(r)
+                if bases is None:
+                    raise NotConcrete(f"an exception ({r.what}) inside a with block is not followed", st)
+                if not any(n in bases for n in names):
+                    raise
+            return
+        super().stmt(st, env, m)
+
+    def matches(self, p: ast.AST, v: t.Any, bound: dict, env: dict, m: t.Any) -> bool:  # type: ignore[override]
+        if isinstance(p, ast.MatchClass) and not p.patterns and not p.kwd_patterns:
+            k = self.expr(p.cls, env, m)
+            tp = _VALUE_TYPES.get(k.fq) if isinstance(k, CExt) else None
+            if tp is None or isinstance(v, (CObj, CMade, CCls, CExt, CFn, ConcreteRaise, ModelMD)):
+                raise NotConcrete("class pattern other than a builtin value type", p)
+            return isinstance(self.plain(v, p), tp)
+        return super().matches(p, v, bound, env, m)
+
+    def assign(self, tg: ast.AST, v: t.Any, env: dict, m: t.Any) -> None:  # type: ignore[override]
+        if isinstance(tg, ast.Attribute):
+            o = self.expr(tg.value, env, m)
+            if isinstance(o, CObj):
+                o.attrs[tg.attr] = v
+                return
+            raise NotConcrete(f"attribute store `{ast.unparse(tg)[:40]}`", tg)
+        if isinstance(tg, ast.Subscript):
+            obj = self.expr(tg.value, env, m)
+            if isinstance(obj, ModelMD):
+                raise NotConcrete("store into a wrapped dict", tg)
+            if isinstance(obj, CObj):
+                self._dunder(obj, "__setitem__", [self.index(tg.slice, env, m), v], tg)
+                return
+        super().assign(tg, v, env, m)
+
+    # -- generators -------------------------------------------------------------
+    def call(self, fn: CFn, args: list, kwargs: dict, node: ast.AST | None = None) -> t.Any:  # type: ignore[override]
+        f = fn.node
+        if isinstance(f, ast.Lambda) or not _is_generator(f):
+            return super().call(fn, args, kwargs, node)
+        if self.depth >= self.max_depth:
+            raise NotConcrete("call depth exceeded", node)
+        env = self._bind(f, fn, args, kwargs, node)
+        out: list = []
+        env["__yield__"] = out
+        self.depth += 1
+        try:
+            try:
+                self.block(f.body, env, fn.module)
+            except _Ret:
+                pass
+            except ConcreteRaise as r:
+                raise NotConcrete(f"a generator function that raises ({r.what}) is not followed lazily", r.node or node)
+        finally:
+            self.depth -= 1
+        return iter(out)
+
+    def _yield_to(self, env: dict, node: ast.AST) -> list:
+        cur: dict | None = env
+        while cur is not None:
+            if "__yield__" in cur:
+                return cur["__yield__"]
+            cur = cur.get("__closure__")
+        raise NotConcrete("yield outside a generator function", node)
+
+    # -- the container protocol of the modelled instance ---------------------------
+    def _dunder(self, o: CObj, name: str, args: list, node: ast.AST | None) -> t.Any:
+        ci = self.repo.try_cls(o.cls) if o.cls else None
+        owner, fi = self.repo.lookup(ci, name) if ci is not None else (None, None)
+        if not isinstance(fi, FuncInfo):
+            raise NotConcrete(f"`{name}` of the modelled {o.cls or 'object'} is not a method of the package", node)
+        return self.call(CFn(fi.node, fi.module), [o] + args, {}, node)
+
+    def truth(self, v: t.Any, node: ast.AST | None) -> bool:  # type: ignore[override]
+        if isinstance(v, CObj):
+            ci = self.repo.try_cls(v.cls) if v.cls else None
+            for nm in ("__bool__", "__len__"):
+                owner, fi = self.repo.lookup(ci, nm) if ci is not None else (None, None)
+                if isinstance(fi, FuncInfo):
+                    return bool(self.plain(self._dunder(v, nm, [], node), node))
+                if fi is not None:
+                    raise NotConcrete(f"truth of the modelled object through `{nm}` outside the package", node)
+            return True
+        if isinstance(v, ConcreteRaise):
+            return True
+        if isinstance(v, CMade):
+            ci = self.repo.try_cls(v.label) if v.label.startswith("werkzeug.") else None
+            if ci is None and not v.label.startswith("builtins."):
+                raise NotConcrete(f"truth of a {v.label} object", node)
+            if ci is not None and any(self.repo.lookup(ci, nm)[1] is not None for nm in ("__bool__", "__len__")):
+                raise NotConcrete(f"truth of a {v.label} object", node)
+            return True
+        return super().truth(v, node)
+
+    def iterate(self, v: t.Any, node: ast.AST | None) -> t.Iterable:  # type: ignore[override]
+        if isinstance(v, CObj):
+            return self.iterate(self._dunder(v, "__iter__", [], node), node)
+        self._no_record(v, "iteration", node)
+        if type(v).__name__ == "ChainMap":
+            return list(v)
+        if isinstance(v, list):
+            return v  # the live list, as in python: a loop that removes from the list it walks sees the shifted elements
+        if isinstance(v, _LAZY) or type(v).__name__ in ("list_iterator", "tuple_iterator", "list_reverseiterator"):
+            return v  # consumed lazily by whoever pulls from it
+        if type(v).__name__ in ("set_iterator", "dict_keyiterator", "dict_valueiterator", "dict_itemiterator", "chain"):
+            return list(v)
+        return super().iterate(v, node)
+
+    def compare(self, op: ast.cmpop, a: t.Any, b: t.Any, node: ast.AST) -> bool:  # type: ignore[override]
+        if isinstance(op, (ast.In, ast.NotIn)) and isinstance(b, CObj):
+            r = self.truth(self._dunder(b, "__contains__", [a], node), node)
+            return r if isinstance(op, ast.In) else not r
+        if not isinstance(op, (ast.Is, ast.IsNot)):
+            if isinstance(op, (ast.Eq, ast.NotEq)) and (isinstance(a, _RECORDS) or isinstance(b, _RECORDS)) and a is b:
+                return isinstance(op, ast.Eq)
+            self._no_record(a, "comparison", node)
+            self._no_record(b, "comparison", node)
+        if isinstance(op, (ast.In, ast.NotIn)) and type(b).__name__.endswith("iterator"):
+            b = self.iterate(b, node)
+        return super().compare(op, a, b, node)
+
+    def binop(self, op: ast.operator, a: t.Any, b: t.Any, node: ast.AST) -> t.Any:  # type: ignore[override]
+        self._no_record(a, "operator", node)
+        self._no_record(b, "operator", node)
+        if type(a).__name__ in _VIEW_TYPES:
+            a = set(a)
+        if type(b).__name__ in _VIEW_TYPES:
+            b = set(b)
+        return super().binop(op, a, b, node)
+
+    def expr(self, e: ast.AST | None, env: dict, m: t.Any) -> t.Any:  # type: ignore[override]
+        if isinstance(e, ast.Yield):
+            self.tick(e)
+            self._yield_to(env, e).append(self.expr(e.value, env, m) if e.value is not None else None)
+            return None
+        if isinstance(e, ast.YieldFrom):
+            self.tick(e)
+            self._yield_to(env, e).extend(self.iterate(self.expr(e.value, env, m), e))
+            return None
+        if isinstance(e, ast.GeneratorExp):
+            self.tick(e)
+            return iter(self.comp(e, env, m))
+        if isinstance(e, ast.Subscript):
+            self.tick(e)
+            v = self.plain(self.expr(e.value, env, m), e)
+            i = self.index(e.slice, env, m)
+            if isinstance(v, CObj):
+                return self._dunder(v, "__getitem__", [i], e)
+            self._no_record(v, "item access", e)
+            if not isinstance(v, (str, bytes, tuple, list, dict, range)):
+                raise NotConcrete(f"subscript of {type(v).__name__}", e)
+            try:
+                return v[i]
+            except (IndexError, KeyError, TypeError) as x:
+                raise ConcreteRaise(type(x).__name__, e)
+        return super().expr(e, env, m)
+
+    def apply(self, f: t.Any, args: list, kw: dict, c: ast.AST) -> t.Any:  # type: ignore[override]
+        if isinstance(f, CExt):
+            if f.fq.startswith("builtins.") and self._exc_bases(f.fq, c) is not None:
+                return CMade(f.fq, tuple(args), tuple(sorted(kw.items())))
+            mt = re.fullmatch(r"builtins\.(str|bytes|list|tuple|dict|set|frozenset|int)\.(\w+)", f.fq)
+            if mt and args and f.fq not in _PURE_EXTRA and type(self.plain(args[0], c)) is _VALUE_TYPES[f"builtins.{mt.group(1)}"]:
+                return self.method(args[0], mt.group(2), list(args[1:]), kw, c)  # str.lower(k) is k.lower()
+            if f.fq == "collections.ChainMap" and not kw and all(isinstance(a, dict) for a in args):
+                import collections
+
+                return collections.ChainMap(*args)  # python's own read-through view of the concrete dicts
+            if f.fq == "itertools.islice" and len(args) in (2, 3, 4) and not kw and all(a is None or (isinstance(a, int) and not isinstance(a, bool)) for a in args[1:]):
+                import itertools
+
+                return iter(list(itertools.islice(self.iterate(args[0], c), *args[1:])))
+            if f.fq in _PURE_EXTRA and not kw:
+                import functools
+                import itertools
+
+                if f.fq == "itertools.chain":
+                    return iter([x for a in args for x in self.iterate(a, c)])
+                if f.fq == "itertools.chain.from_iterable" and len(args) == 1:
+                    return iter([x for a in self.iterate(args[0], c) for x in self.iterate(a, c)])
+                if f.fq == "functools.reduce" and len(args) in (2, 3):
+                    try:
+                        return functools.reduce(lambda x, y: self.apply(args[0], [x, y], {}, c), list(self.iterate(args[1], c)), *args[2:])
+                    except TypeError:
+                        raise ConcreteRaise("TypeError", c)
+                if f.fq in ("builtins.set.union", "builtins.frozenset.union") and args:
+                    first = self.plain(args[0], c)
+                    if isinstance(first, (set, frozenset)):
+                        return first.union(*[list(self.iterate(a, c)) for a in args[1:]])
+                if f.fq == "builtins.dict.fromkeys" and len(args) in (1, 2):
+                    try:
+                        return dict.fromkeys(list(self.iterate(args[0], c)), *args[1:])
+                    except TypeError:
+                        raise NotConcrete("unhashable key", c)
+                if f.fq == "operator.or_" and len(args) == 2:
+                    return self.binop(ast.BitOr(), args[0], args[1], c)
+                if f.fq == "builtins.dict.keys" and len(args) == 1 and isinstance(args[0], dict):
+                    return dict.keys(args[0])
+                del itertools
+                raise NotConcrete(f"call of `{f.fq}`", c)
+        return super().apply(f, args, kw, c)
+
+    def builtin(self, nm: str, args: list, kw: dict, c: ast.AST) -> t.Any:  # type: ignore[override]
+        if nm == "next":
+            for a in args[:1]:  # the default may be any object (a sentinel)
+                self._no_record(a, "next()", c)
+        elif nm not in ("isinstance", "map", "filter", "sorted", "min", "max"):
+            for a in list(args) + list(kw.values()):
+                self._no_record(a, f"{nm}()", c)
+        elif nm in ("sorted", "min", "max"):
+            for a in args:
+                self._no_record(a, f"{nm}()", c)
+        elif nm in ("map", "filter"):
+            for a in args[1:]:
+                self._no_record(a, f"{nm}()", c)
+        if nm == "len" and len(args) == 1 and not kw and isinstance(args[0], CObj):
+            return self._dunder(args[0], "__len__", [], c)
+        if nm in ("dict", "bool", "str", "repr", "reversed") and any(isinstance(a, CObj) for a in args):
+            raise NotConcrete(f"{nm}() of the modelled object", c)
+        if nm == "isinstance" and len(args) == 2 and not kw:
+            if isinstance(args[0], (CObj, CMade, CCls, CExt, CFn, ConcreteRaise, ModelMD)):
+                raise NotConcrete("isinstance of a modelled object", c)
+            tps = args[1] if isinstance(args[1], tuple) and not isinstance(args[1], (CExt, CCls, CMade)) else (args[1],)
+            py = []
+            for x in tps:
+                k = _VALUE_TYPES.get(x.fq) if isinstance(x, CExt) else None
+                if k is None:
+                    raise NotConcrete("isinstance against a class that is not a builtin value type", c)
+                py.append(k)
+            return isinstance(self.plain(args[0], c), tuple(py))
+        if nm == "iter" and len(args) == 2:
+            raise NotConcrete("iter(callable, sentinel)", c)
+        if nm in ("enumerate", "iter", "reversed", "zip") and args and all(isinstance(a, (list, tuple, str, CObj) + _LAZY) or type(a).__name__.endswith("iterator") for a in args) and not (nm == "reversed" and not isinstance(args[0], (list, tuple, str))):
+            import builtins
+
+            live = [self.iterate(a, c) if isinstance(a, CObj) else a for a in args]  # not copied: python reads the list as the loop goes
+            for a in kw.values():
+                if not isinstance(self.plain(a, c), int):
+                    raise NotConcrete(f"{nm}() keyword", c)
+            return getattr(builtins, nm)(*live, **kw)
+        if nm == "next" and args and isinstance(args[0], CObj):
+            raise NotConcrete("next() of the modelled object", c)
+        if nm == "len" and args and type(args[0]).__name__ in _VIEW_TYPES + ("dict_values",):
+            return len(args[0])
+        if nm == "len" and args and type(args[0]).__name__.endswith("iterator"):
+            raise ConcreteRaise("TypeError", c)
+        return super().builtin(nm, args, kw, c)
+
+    def method(self, obj: t.Any, attr: str, args: list, kw: dict, c: ast.AST) -> t.Any:  # type: ignore[override]
+        if isinstance(obj, ModelMD):
+            if attr not in ModelMD.READERS:
+                raise NotConcrete(f"method `{attr}` of a wrapped dict", c)
+            for a in list(args) + list(kw.values()):
+                self.plain(a, c)
+                if isinstance(a, (CFn, CExt)):
+                    raise NotConcrete(f"`{attr}` of a wrapped dict with a conversion callable", c)
+            try:
+                return getattr(obj, attr)(*args, **kw)
+            except KeyError:
+                raise ModelRaise("BadRequestKeyError", {"werkzeug.exceptions.BadRequestKeyError", "builtins.KeyError", "builtins.LookupError", "builtins.Exception", "builtins.BaseException"}, None, c)
+            except TypeError:
+                raise NotConcrete(f"`{attr}` of a wrapped dict with these arguments", c)
+        if type(obj).__name__ == "ChainMap" and attr == "keys" and not args and not kw:
+            return list(obj.keys())
+        if type(obj).__name__ in _VIEW_TYPES and attr in ("isdisjoint",):
+            return getattr(obj, attr)(*[list(self.iterate(a, c)) for a in args])
+        if isinstance(obj, (set, frozenset)) and attr in ("union", "update", "intersection", "difference", "issubset", "issuperset", "isdisjoint") and not kw:
+            args = [a if isinstance(a, (set, frozenset, list, tuple, dict, str)) else list(self.iterate(a, c)) for a in args]
+        if isinstance(obj, list) and attr == "extend" and len(args) == 1 and not isinstance(args[0], (list, tuple)):
+            args = [list(self.iterate(args[0], c))]
+        return super().method(obj, attr, args, kw, c)
+
+
+def _outcome(ip: ModelEval, fi: FuncInfo, me: CObj, args: list, kw: dict | None = None) -> tuple[str, t.Any]:
+    """('value', v) | ('raise', set of class names) - NotConcrete propagates."""
+    try:
+        return "value", ip.call(CFn(fi.node, fi.module), [me] + args, dict(kw or {}), fi.node)
+    except ConcreteRaise as r:
+        bases = ip._raise_of(r)
+        if bases is None:
+            raise NotConcrete(f"raises {r.what}", r.node)
+        return ("raise" if isinstance(r, ModelRaise) and r.value is not None else "raise-implicit"), (r.what, bases)
+
+
+def _cannot(rid: str, what: str, x: NotConcrete, fi: FuncInfo) -> AnalysisError:
+    return AnalysisError(f"{rid}: {what} cannot be evaluated on the state table: {x.why} ({fi.loc(x.node) if x.node is not None and hasattr(x.node, 'lineno') else fi.loc()})")
+
+
+# states of the combined view: lists of wrapped dicts (key -> values); shared keys, shared keys in another letter case
+# (different keys for a multi dict), a key in all dicts, no dicts, empty dicts
+COMBINED_STATES: list[list[dict[str, list[str]]]] = [
+    [],
+    [{}],
+    [{"a": ["1"]}],
+    [{"a": ["1"], "b": ["2"]}, {"c": ["3"]}],
+    [{"a": ["1"], "b": ["2"]}, {"a": ["3"], "A": ["4"]}],
+    [{"a": ["1", "1x"]}, {"a": ["2"]}, {"a": ["3"], "d": ["4"]}],
+    [{}, {"b": ["2"]}, {}, {"b": ["5"], "a": ["0"]}],
+]
+
+
+def combined_observers_rule(ctx: Ctx, rid: str) -> int:
+    """R8.11: the sibling observers of the combined view's key set agree with the model and hence with each other: on
+    every state of the table ``len(x)`` is the number of distinct keys of the wrapped dicts, and iteration and
+    ``keys()`` hand out exactly those keys, each once."""
+    repo = ctx.repo
+    cls = repo.cls(COMBINED)
+    loc = wrapped_list_attr(repo, cls)
+    n = 0
+    undecided: list[AnalysisError] = []
+    for name in ("__len__", "__iter__", "keys"):
+        owner, fi = repo.lookup(cls, name)
+        if not isinstance(fi, FuncInfo):
+            raise AnalysisError(f"{rid}: {cls.name}.{name} does not resolve to a method of the package")
+        ctx.saw(fi)
+        bad: list[str] = []
+        open_: list[AnalysisError] = []
+        for state in COMBINED_STATES:
+            want = sorted({k for d in state for k in d})
+            me = CObj(cls.fq, {loc: [ModelMD({k: list(v) for k, v in d.items()}) for d in state]})
+            ip = ModelEval(repo)
+            try:
+                kind, got = _outcome(ip, fi, me, [])
+                if kind == "value" and name != "__len__":
+                    got = sorted(ip._no_record(ip.plain(x, fi.node), "a key", fi.node) for x in ip.iterate(got, fi.node))
+                elif kind == "value":
+                    ip._no_record(ip.plain(got, fi.node), "the length", fi.node)
+                    if isinstance(got, CObj):
+                        raise NotConcrete("the length is a modelled object", fi.node)
+            except NotConcrete as x:
+                open_.append(_cannot(rid, f"{cls.name}.{name}", x, fi))
+                continue
+            except TypeError:
+                open_.append(AnalysisError(f"{rid}: {cls.name}.{name}: keys handed out are not comparable"))
+                continue
+            exp: t.Any = len(want) if name == "__len__" else want
+            if kind != "value" or isinstance(got, bool) or got != exp:
+                bad.append(f"wrapped dicts {state}: {'raises ' + got[0] if kind != 'value' else 'gives ' + repr(got)}, the model has {exp!r}")
+            n += 1
+        what = "the number of distinct keys" if name == "__len__" else "each distinct key once"
+        if open_ and not bad:
+            undecided.append(open_[0])  # a disagreement found on another state stands; otherwise the observer is not decided
+            continue
+        ctx.ob(rid, f"{cls.name}.{name} gives {what} of the wrapped dicts", not bad, bad[0] if bad else f"{owner.name}.{name} agrees with the model on {len(COMBINED_STATES)} states (shared keys, case variants, empty dicts)", fi, fi.node, f"{cls.name}.{name} vs key set")
+    if undecided:
+        raise undecided[0]
+    return n
+
+
+# states of Headers' pair list (repeated keys in several letter cases with different values) and the keys looked up
+HEADERS_STATES: list[tuple[list[tuple[str, str]], list[str]]] = [
+    ([("a", "1"), ("b", "2"), ("A", "3"), ("a", "1x")], ["a", "A", "B", "c"]),
+    ([("X", "7"), ("x", "8"), ("y", "0"), ("X", "9")], ["x", "X", "Y"]),
+    ([("k", "v")], ["K", "q"]),
+    ([], ["a"]),
+]
+
+
+def _storage_attr(repo: Repo, cls: ClassInfo, rid: str) -> str:
+    """the attribute the constructor initialises with an empty list when it is given nothing (by role, not by name)."""
+    owner, init = repo.lookup(cls, "__init__")
+    if not isinstance(init, FuncInfo):
+        raise AnalysisError(f"{rid}: {cls.name}.__init__ is not a method of the package")
+    me = CObj(cls.fq, {})
+    try:
+        ModelEval(repo).call(CFn(init.node, init.module), [me], {}, init.node)
+    except NotConcrete as x:
+        raise _cannot(rid, f"{cls.name}.__init__()", x, init)
+    except ConcreteRaise as r:
+        raise AnalysisError(f"{rid}: {cls.name}.__init__() raises {r.what}")
+    lists = sorted(k for k, v in me.attrs.items() if isinstance(v, list) and not v)
+    if len(lists) != 1:
+        raise AnalysisError(f"{rid}: {cls.name}.__init__(): expected exactly one attribute initialised with an empty list, found {sorted(me.attrs)}")
+    return lists[0]
+
+
+def headers_first_match_rule(ctx: Ctx, rid: str) -> int:
+    """R8.12: the keyed read accessors of Headers answer with the FIRST pair (list order) whose key equals the given
+    key case-insensitively; a missing key gives the default / a KeyError; pop additionally leaves exactly the other
+    pairs, in order."""
+    repo = ctx.repo
+    cls = repo.cls(HEADERS)
+    loc = _storage_attr(repo, cls, rid)
+    n = 0
+    forms: list[tuple[str, str, list, str]] = [
+        ("__getitem__", "h[key]", [], "raise"),
+        ("get", "get(key)", [], "none"),
+        ("get", "get(key, default)", ["<default>"], "default"),
+        ("pop", "pop(key)", [], "raise"),
+        ("pop", "pop(key, default)", ["<default>"], "default"),
+    ]
+    undecided: list[AnalysisError] = []
+    for name, form, extra, absent in forms:
+        owner, fi = repo.lookup(cls, name)
+        if not isinstance(fi, FuncInfo):
+            raise AnalysisError(f"{rid}: {cls.name}.{name} does not resolve to a method of the package")
+        ctx.saw(fi)
+        bad: list[str] = []
+        open_: list[AnalysisError] = []
+        for pairs, keys in HEADERS_STATES:
+            for key in keys:
+                hits = [v for k, v in pairs if k.lower() == key.lower()]
+                rest = [(k, v) for k, v in pairs if k.lower() != key.lower()]
+                me = CObj(cls.fq, {loc: list(pairs)})
+                ip = ModelEval(repo)
+                try:
+                    kind, got = _outcome(ip, fi, me, [key] + extra)
+                    if kind == "value":
+                        got = ip.plain(got, fi.node)
+                        if isinstance(got, _RECORDS + (CObj, ConcreteRaise)):
+                            raise NotConcrete(f"the result is an object outside the modelled subset ({type(got).__name__})", fi.node)
+                except NotConcrete as x:
+                    open_.append(_cannot(rid, f"{cls.name}.{form}", x, fi))
+                    continue
+                n += 1
+                after = me.attrs.get(loc)
+                if not isinstance(after, list):
+                    open_.append(AnalysisError(f"{rid}: {cls.name}.{form}: the pair list was replaced by a {type(after).__name__}"))
+                    continue
+                where = f"pairs {pairs}, key {key!r}"
+                if hits:
+                    if kind != "value":
+                        bad.append(f"{where}: raises {got[0]}, the model gives the first value {hits[0]!r}")
+                    elif got != hits[0]:
+                        bad.append(f"{where}: gives {got!r}, the model gives the first value {hits[0]!r}" + (" (that is the last one)" if got == hits[-1] else ""))
+                else:
+                    if absent == "raise":
+                        if kind == "value":
+                            bad.append(f"{where}: gives {got!r}, the model raises KeyError")
+                        elif "builtins.KeyError" not in got[1]:
+                            open_.append(AnalysisError(f"{rid}: {cls.name}.{form} on {where}: raises {got[0]}, not a KeyError - not judged"))
+                    else:
+                        exp = None if absent == "none" else "<default>"
+                        if kind != "value":
+                            bad.append(f"{where}: raises {got[0]}, the model gives the default")
+                        elif got is not exp and got != exp:
+                            bad.append(f"{where}: gives {got!r}, the model gives the default {exp!r}")
+                want_after = rest if name == "pop" else list(pairs)
+                if [tuple(x) if isinstance(x, (list, tuple)) else x for x in after] != want_after and not (kind != "value" and name != "pop"):
+                    bad.append(f"{where}: leaves the pairs {after}, the model leaves {want_after}")
+        if open_ and not bad:
+            undecided.append(open_[0])
+            continue
+        ctx.ob(rid, f"{cls.name}.{form} answers with the first matching pair", not bad, bad[0] if bad else f"{owner.name}.{name} agrees with the model on {sum(len(k) for _, k in HEADERS_STATES)} (state, key) cases with repeated keys in several letter cases", fi, fi.node, f"{cls.name}.{form} first match")
+    if undecided:
+        raise undecided[0]
     return n
